@@ -56,6 +56,10 @@ structure OpWF (op : Op) : Prop where
   qregs_nodup : op.qregs.Nodup
   cregs_nodup : op.cregs.Nodup
   qregs_quantum : ∀ r ∈ op.qregs, r.ty ≠ .c
+  /-- a `OneQubitGateWrapper` is a one-qubit operation wrapping one-qubit gate classes -/
+  wrapper_shape : op.kind = .wrapper → (∃ r, op.qregs = [r]) ∧ op.cregs = [] ∧ ∀ k ∈ op.inner, k.isOneQubitBase = true
+  /-- user labels do not collide with the class name under which wrappers are indexed -/
+  wrapper_key : "OneQubitGateWrapper" ∈ op.indexKeys → op.kind = .wrapper
 
 structure Inv (c : Dag) (P : Paths) : Prop where
   edges_nodup : c.edges.Nodup
@@ -1949,6 +1953,573 @@ theorem removeOp_good {c : Dag} {P : Paths} (g : Good c P) {i : Nat} (hi : NodeI
   have : (c.removed (.op i) op).regs = (c.rejoin (c.inEdges (.op i)) (c.outEdges (.op i))).regs := by
     funext t; cases t <;> rfl
   rw [this, F.regs]
+
+
+/-! ## `replace_op` -/
+
+def replaced (c : Dag) (n : NodeId) (old new : Op) : Dag :=
+  { c with nodeDict := new.indexKeys.foldl (fun d k => dictAppend d k n)
+                         (old.indexKeys.foldl (fun d k => dictRemove d k n) c.nodeDict),
+           nodes := c.nodes.map (fun p => if p.1 = n then (n, new) else p) }
+
+theorem replaceOp_eq {c : Dag} {n : NodeId} {old new : Op} (h : c.opOf? n = some old)
+    (hq : old.qregs = new.qregs) (hc : old.cregs = new.cregs) : c.replaceOp n new = (c.replaced n old new, none) := by
+  unfold replaceOp; rw [h]; simp [hq, hc, replaced]
+
+theorem mem_replaced_nodes {c : Dag} {n : NodeId} {old new : Op} (m : NodeId) (o : Op) :
+    (m, o) ∈ (c.replaced n old new).nodes ↔ (m ≠ n ∧ (m, o) ∈ c.nodes) ∨ (m = n ∧ o = new ∧ n ∈ c.nodeIds) := by
+  simp only [replaced, List.mem_map]
+  constructor
+  · rintro ⟨p, hp, he⟩
+    by_cases hpn : p.1 = n
+    · rw [if_pos hpn] at he
+      injection he with h1 h2
+      right; exact ⟨h1.symm, h2.symm, mem_nodeIds.mpr ⟨p.2, by rw [← hpn]; exact hp⟩⟩
+    · rw [if_neg hpn] at he
+      subst he; left; exact ⟨hpn, hp⟩
+  · rintro (⟨hne, hm⟩ | ⟨rfl, rfl, hn⟩)
+    · exact ⟨(m, o), hm, by simp [hne]⟩
+    · obtain ⟨o', ho'⟩ := mem_nodeIds.mp hn
+      exact ⟨(m, o'), ho', by simp⟩
+
+theorem replaced_nodeIds (c : Dag) (n : NodeId) (old new : Op) : (c.replaced n old new).nodeIds = c.nodeIds := by
+  simp only [nodeIds, replaced, List.map_map]
+  apply List.map_congr_left
+  intro p _
+  by_cases h : p.1 = n <;> simp [h]
+
+theorem replaced_good {c : Dag} {P : Paths} (g : Good c P) {i : Nat} {old new : Op} (hold : (NodeId.op i, old) ∈ c.nodes)
+    (hnew : OpWF new) (hq : old.qregs = new.qregs) (hc : old.cregs = new.cregs) :
+    Good (c.replaced (.op i) old new) P := by
+  have h := g.inv
+  have hids := replaced_nodeIds c (.op i) old new
+  have hregs : (c.replaced (.op i) old new).regs = c.regs := by funext t; cases t <;> rfl
+  have hi : NodeId.op i ∈ c.nodeIds := mem_nodeIds.mpr ⟨old, hold⟩
+  have hnd' : (c.replaced (.op i) old new).nodeIds.Nodup := by rw [hids]; exact h.ids_nodup
+  have hold_uniq : ∀ o, (NodeId.op i, o) ∈ c.nodes → o = old := by
+    intro o ho
+    have h1 := (opOf_eq_some h.ids_nodup).mpr ho
+    have h2 := (opOf_eq_some h.ids_nodup).mpr hold
+    rw [h1] at h2; injection h2
+  refine ⟨?_, ⟨?_, ?_⟩, g.acyc⟩
+  · refine
+      { edges_nodup := h.edges_nodup
+        edges_iff := h.edges_iff
+        dead := by intro k hk; exact h.dead k (by simpa [live, hregs] using hk)
+        shape := by intro k hk; exact h.shape k (by simpa [live, hregs] using hk)
+        nodup := h.nodup
+        mem_nodes := by intro k m hm; rw [hids]; exact h.mem_nodes k m hm
+        edgeDict_ok := h.edgeDict_ok
+        ids_nodup := hnd'
+        inp_iff := by intro r; rw [hids, live_eq_of_regs hregs]; exact h.inp_iff r
+        out_iff := by intro r; rw [hids, live_eq_of_regs hregs]; exact h.out_iff r
+        inp_op := by
+          intro r o hm
+          rcases (mem_replaced_nodes _ _).mp hm with ⟨_, hm⟩ | ⟨e, _, _⟩
+          · exact h.inp_op r o hm
+          · cases e
+        out_op := by
+          intro r o hm
+          rcases (mem_replaced_nodes _ _).mp hm with ⟨_, hm⟩ | ⟨e, _, _⟩
+          · exact h.out_op r o hm
+          · cases e
+        op_range := by intro j hj; rw [hids] at hj; exact h.op_range j hj
+        op_wf := by
+          intro j o hm
+          rcases (mem_replaced_nodes _ _).mp hm with ⟨_, hm⟩ | ⟨_, e, _⟩
+          · exact h.op_wf j o hm
+          · rw [e]; exact hnew
+        nodeDict_ok := ?_ }
+    intro l m
+    have hd : (c.replaced (.op i) old new).nodeDict = new.indexKeys.foldl (fun d k => dictAppend d k (.op i))
+        (old.indexKeys.foldl (fun d k => dictRemove d k (.op i)) c.nodeDict) := rfl
+    rw [hd, count_dictGet_foldl_append, count_dictGet_foldl_remove, h.nodeDict_ok]
+    by_cases hm : m = .op i
+    · subst hm
+      have h1 : c.opOf? (.op i) = some old := (opOf_eq_some h.ids_nodup).mpr hold
+      have h2 : (c.replaced (.op i) old new).opOf? (.op i) = some new :=
+        (opOf_eq_some hnd').mpr ((mem_replaced_nodes _ _).mpr (Or.inr ⟨rfl, rfl, hi⟩))
+      simp [indexCount, h1, h2, indexKeysOf]
+    · have : (c.replaced (.op i) old new).opOf? m = c.opOf? m := by
+        cases hc' : c.opOf? m with
+        | none =>
+          apply opOf_eq_none.mpr; rw [hids]; exact opOf_eq_none.mp hc'
+        | some o =>
+          apply (opOf_eq_some hnd').mpr
+          exact (mem_replaced_nodes _ _).mpr (Or.inl ⟨hm, (opOf_eq_some h.ids_nodup).mp hc'⟩)
+      simp [indexCount, this, hm]
+  · intro j o hm k hk
+    rcases (mem_replaced_nodes _ _).mp hm with ⟨_, hm⟩ | ⟨e, rfl, _⟩
+    · exact g.mem.mem_q j o hm k hk
+    · injection e with e; subst e
+      rw [← hq]; exact g.mem.mem_q j old hold k hk
+  · intro j o hm r hr
+    rcases (mem_replaced_nodes _ _).mp hm with ⟨_, hm⟩ | ⟨e, rfl, _⟩
+    · exact g.mem.mem_c j o hm r hr
+    · injection e with e; subst e
+      rw [← hc]; exact g.mem.mem_c j old hold r hr
+
+/-- **`replace_op` keeps DagInv** whatever it returns (it changes the state only when it succeeds) -/
+theorem replaceOp_good {c : Dag} {P : Paths} (g : Good c P) {i : Nat} {new : Op} (hnew : OpWF new) :
+    Good (c.replaceOp (.op i) new).1 P ∧ (c.replaceOp (.op i) new).1.regs = c.regs := by
+  unfold replaceOp
+  cases hc : c.opOf? (.op i) with
+  | none => exact ⟨g, rfl⟩
+  | some old =>
+    simp only
+    by_cases hne : old.qregs ≠ new.qregs ∨ old.cregs ≠ new.cregs
+    · rw [if_pos hne]; exact ⟨g, rfl⟩
+    · rw [if_neg hne]
+      have hq : old.qregs = new.qregs := by
+        by_cases h : old.qregs = new.qregs
+        · exact h
+        · exact absurd (Or.inl h) hne
+      have hcr : old.cregs = new.cregs := by
+        by_cases h : old.cregs = new.cregs
+        · exact h
+        · exact absurd (Or.inr h) hne
+      have := replaced_good g ((opOf_eq_some g.inv.ids_nodup).mp hc) hnew hq hcr
+      refine ⟨this, ?_⟩
+      funext t; cases t <;> rfl
+
+/-- **`add_*_register` keeps DagInv** -/
+theorem addRegister_good {c : Dag} {P : Paths} (g : Good c P) (t : RegType) (size : Nat) :
+    ∃ P', Good (c.addRegister t size).1 P' := by
+  unfold addRegister
+  by_cases hs : size ≠ 1
+  · rw [if_pos hs]; exact ⟨P, g⟩
+  · rw [if_neg hs]
+    obtain ⟨P', g', _⟩ := addRegIfAbsent_good g ⟨t, c.regs t⟩
+    exact ⟨P', g'⟩
+
+
+/-! ## the initial circuit -/
+
+theorem empty_good : Good Dag.empty (fun _ => []) := by
+  refine ⟨?_, ⟨?_, ?_⟩, ?_⟩
+  · refine
+      { edges_nodup := by simp [Dag.empty]
+        edges_iff := by intro e; simp [Dag.empty]
+        dead := fun _ _ => rfl
+        shape := by intro k hk; cases k with | mk t i => cases t <;> simp [live, regs, Dag.empty] at hk
+        nodup := by intro k; simp
+        mem_nodes := by intro k n hn; simp at hn
+        edgeDict_ok := by intro t e; simp [Dag.empty, dictGet]
+        ids_nodup := by simp [nodeIds, Dag.empty]
+        inp_iff := by
+          intro r; cases r with | mk t i => cases t <;> simp [nodeIds, Dag.empty, live, regs]
+        out_iff := by
+          intro r; cases r with | mk t i => cases t <;> simp [nodeIds, Dag.empty, live, regs]
+        inp_op := by intro r o hm; simp [Dag.empty] at hm
+        out_op := by intro r o hm; simp [Dag.empty] at hm
+        op_range := by intro j hj; simp [nodeIds, Dag.empty] at hj
+        op_wf := by intro j o hm; simp [Dag.empty] at hm
+        nodeDict_ok := by intro l n; simp [Dag.empty, dictGet, indexCount, opOf?] }
+  · intro i o hm; simp [Dag.empty] at hm
+  · intro i o hm; simp [Dag.empty] at hm
+  · intro a haa
+    rcases TransGen.head'_iff.mp haa with ⟨b, ⟨e, he, _⟩, _⟩
+    simp [Dag.empty] at he
+
+/-- **`CircuitDAG(n_emitter, n_photon, n_classical)` satisfies DagInv** -/
+theorem init_good (ne np nc : Nat) : ∃ P, Good (Dag.init ne np nc) P := by
+  obtain ⟨P, g, _⟩ := addRegs_good empty_good
+    ((List.range ne).map (Reg.mk .e) ++ (List.range np).map (Reg.mk .p) ++ (List.range nc).map (Reg.mk .c))
+  exact ⟨P, g⟩
+
+
+/-! ## composite edits: `remove_identity`, `group_one_qubit_gates`, `unwrap_nodes` -/
+
+theorem addRegs_live_eq {c : Dag} {P : Paths} (h : Inv c P) (rs : List Reg) (hl : ∀ r ∈ rs, c.live r) :
+    c.addRegs rs = (c, none) := by
+  induction rs with
+  | nil => rfl
+  | cons r rest ih =>
+    unfold addRegs
+    rw [addRegIfAbsent_old h (hl r (by simp))]
+    exact ih (fun r' hr' => hl r' (List.mem_cons_of_mem _ hr'))
+
+theorem ensureRegs_live_eq {c : Dag} {P : Paths} (h : Inv c P) {op : Op} (hq : op.qregs ≠ [])
+    (hl : ∀ r ∈ opRegs op, c.live r) : c.ensureRegs op = (c, none) := by
+  unfold ensureRegs
+  rw [addRegs_live_eq h _ (fun r hr => hl r (List.mem_append_right _ hr))]
+  have : op.qregs.isEmpty = false := by cases hq' : op.qregs with
+    | nil => exact absurd hq' hq
+    | cons a t => rfl
+  simp only [this]
+  exact addRegs_live_eq h _ (fun r hr => hl r (List.mem_append_left _ ((mem_sortRegs _ _).mp hr)))
+
+/-- members of a `node_dict` list are nodes of the graph carrying that key -/
+theorem Inv.mem_nodeDict {c : Dag} {P : Paths} (h : Inv c P) {l : String} {n : NodeId} (hn : n ∈ dictGet c.nodeDict l) :
+    ∃ op, (n, op) ∈ c.nodes ∧ l ∈ indexKeysOf n op := by
+  have hc : 0 < (dictGet c.nodeDict l).count n := List.count_pos_iff.mpr hn
+  rw [h.nodeDict_ok] at hc
+  unfold indexCount at hc
+  cases ho : c.opOf? n with
+  | none => rw [ho] at hc; simp at hc
+  | some op =>
+    rw [ho] at hc
+    exact ⟨op, (opOf_eq_some h.ids_nodup).mp ho, List.count_pos_iff.mp hc⟩
+
+theorem removeOp_absent {c : Dag} {n : NodeId} (h : c.opOf? n = none) : (c.removeOp n).1 = c := by
+  unfold removeOp; rw [h]
+
+/-- removing any list of operation-node ids (present or not) keeps DagInv -/
+theorem removeAll_good {c : Dag} {P : Paths} (g : Good c P) (ns : List NodeId) (hns : ∀ n ∈ ns, ∃ i, n = NodeId.op i) :
+    ∃ P', Good (c.removeAll ns).1 P' ∧ (c.removeAll ns).1.regs = c.regs := by
+  induction ns generalizing c P with
+  | nil => exact ⟨P, g, rfl⟩
+  | cons n rest ih =>
+    obtain ⟨i, rfl⟩ := hns n (by simp)
+    unfold removeAll
+    by_cases hp : NodeId.op i ∈ c.nodeIds
+    · obtain ⟨h1, h2, h3, _⟩ := removeOp_good g hp
+      cases hres : c.removeOp (.op i) with
+      | mk c1 err =>
+        rw [hres] at h1 h2 h3
+        simp only at h1 h2 h3
+        subst h1
+        obtain ⟨P', g', hr'⟩ := ih h2 (fun n hn => hns n (List.mem_cons_of_mem _ hn))
+        exact ⟨P', g', hr'.trans h3⟩
+    · have hnone : c.opOf? (.op i) = none := opOf_eq_none.mpr hp
+      have : c.removeOp (.op i) = (c, some .networkx) := by unfold removeOp; rw [hnone]
+      rw [this]; exact ⟨P, g, rfl⟩
+
+theorem Inv.nodeDict_ops {c : Dag} {P : Paths} (h : Inv c P) {l : String} (hl1 : l ≠ "Input") (hl2 : l ≠ "Output")
+    {n : NodeId} (hn : n ∈ dictGet c.nodeDict l) : ∃ i, n = NodeId.op i := by
+  obtain ⟨op, _, hk⟩ := h.mem_nodeDict hn
+  cases n with
+  | inp r => simp [indexKeysOf] at hk; exact absurd hk hl1
+  | out r => simp [indexKeysOf] at hk; exact absurd hk hl2
+  | op i => exact ⟨i, rfl⟩
+
+/-- **`remove_identity` keeps DagInv** (and the register counts) -/
+theorem removeIdentity_good {c : Dag} {P : Paths} (g : Good c P) :
+    ∃ P', Good c.removeIdentity.1 P' ∧ c.removeIdentity.1.regs = c.regs := by
+  unfold removeIdentity
+  by_cases hh : dictHas c.nodeDict "Identity" = true
+  · rw [if_pos hh]
+    exact removeAll_good g _ (fun n hn => g.inv.nodeDict_ops (by decide) (by decide) hn)
+  · rw [if_neg hh]; exact ⟨P, g, rfl⟩
+
+/-- `insert_at` of a one-register operation on one existing edge of that register -/
+theorem insertAt_single_good {c : Dag} {P : Paths} (g : Good c P) {w : Op} (hw : OpWF w) {r : Reg}
+    (hq : w.qregs = [r]) (hc : w.cregs = []) {ie : Edge} (hie : ie ∈ c.edges) (hk : ie.key = r) :
+    (c.insertAt w [ie]).2 = none ∧ ∃ P', Good (c.insertAt w [ie]).1 P' ∧ (c.insertAt w [ie]).1.regs = c.regs ∧
+      (c.insertAt w [ie]).1.nodeId = c.nodeId + 1 ∧
+      (c.insertAt w [ie]).1.nodes = c.nodes ++ [(.op (c.nodeId + 1), w)] ∧
+      (∀ k x, x ∈ P' k ↔ x ∈ P k ∨ (x = .op (c.nodeId + 1) ∧ k = r)) := by
+  have hlive : c.live r := hk ▸ g.inv.live_of_edge hie
+  have hens : c.ensureRegs w = (c, none) := by
+    apply ensureRegs_live_eq g.inv (by rw [hq]; simp)
+    intro r' hr'; unfold opRegs at hr'; rw [hq, hc] at hr'; simp at hr'; subst hr'; exact hlive
+  have hok : InsertOK c w [ie] := by
+    refine ⟨by simpa using hie, by simp [hq, hk], ?_⟩
+    intro e1 he1 e2 he2 hne
+    simp at he1 he2; subst he1 he2; exact absurd rfl hne
+  obtain ⟨h1, P', g', h2, h3, h4, h5⟩ := insertAt_good' g hw hok
+  have heq : c.insertAt w [ie] = c.insertAt_ w [ie] := by
+    unfold insertAt; rw [hens]; simp [hq]
+  rw [heq]
+  refine ⟨h1, P', g', h2, h3, h4, ?_⟩
+  intro k x; rw [h5 k x, hq]; simp
+
+
+theorem mkWrapper_wf {gates : List Kind} {r : Reg} {w : Op} (h : mkWrapper gates r = some w) :
+    OpWF w ∧ w.qregs = [r] ∧ w.cregs = [] := by
+  unfold mkWrapper at h
+  by_cases hc : r.ty = .c
+  · simp [hc] at h
+  · rw [if_neg hc] at h
+    by_cases hall : gates.all Kind.isOneQubitBase = true
+    · rw [if_pos hall] at h
+      injection h with h; subst h
+      refine ⟨?_, rfl, rfl⟩
+      exact
+        { not_input := by simp
+          not_output := by simp
+          qregs_ne := by simp
+          qregs_nodup := by simp
+          cregs_nodup := by simp
+          qregs_quantum := by intro r' hr'; simp at hr'; subst hr'; exact hc
+          wrapper_shape := fun _ => ⟨⟨r, rfl⟩, rfl, fun k hk => List.all_eq_true.mp hall k hk⟩
+          wrapper_key := fun _ => rfl }
+    · rw [if_neg hall] at h; simp at h
+
+theorem groupTake_good {c : Dag} {P : Paths} (g : Good c P) (node : NodeId) (gates : List Kind) :
+    ∃ P', Good (groupTake c node gates).1 P' ∧ (groupTake c node gates).1.regs = c.regs := by
+  unfold groupTake
+  by_cases hc : (dictGet c.nodeDict "one-qubit").contains node = true
+  · rw [if_pos hc]
+    have hmem : node ∈ dictGet c.nodeDict "one-qubit" := by simpa using hc
+    obtain ⟨i, rfl⟩ := g.inv.nodeDict_ops (by decide) (by decide) hmem
+    obtain ⟨op, hop, _⟩ := g.inv.mem_nodeDict hmem
+    rw [(opOf_eq_some g.inv.ids_nodup).mpr hop]
+    simp only
+    obtain ⟨_, h2, h3, _⟩ := removeOp_good g (mem_nodeIds.mpr ⟨op, hop⟩)
+    exact ⟨_, h2, h3⟩
+  · rw [if_neg hc]; exact ⟨P, g, rfl⟩
+
+theorem mem_of_edgeFromReg {es : List Edge} {r : Reg} {e : Edge} (h : edgeFromReg es r = some e) : e ∈ es ∧ e.key = r := by
+  unfold edgeFromReg at h
+  exact ⟨List.mem_of_find?_eq_some h, by simpa using List.find?_some h⟩
+
+theorem groupFlush_good {c : Dag} {P : Paths} (g : Good c P) (r : Reg) (next : NodeId) (gates : List Kind) :
+    ∃ P', Good (groupFlush c r next gates).1 P' ∧ (groupFlush c r next gates).1.regs = c.regs := by
+  unfold groupFlush
+  cases he : edgeFromReg (c.outEdges next) r with
+  | none => exact ⟨P, g, rfl⟩
+  | some ie =>
+    simp only
+    cases hw : mkWrapper gates r with
+    | none => exact ⟨P, g, rfl⟩
+    | some w =>
+      simp only
+      obtain ⟨hwf, hq, hcr⟩ := mkWrapper_wf hw
+      have hie := mem_of_edgeFromReg he
+      have hie' : ie ∈ c.edges := (List.mem_filter.mp hie.1).1
+      obtain ⟨_, P', g', hr, _⟩ := insertAt_single_good g hwf hq hcr hie' hie.2
+      exact ⟨P', g', hr⟩
+
+theorem groupWalk_good (r : Reg) (fuel : Nat) : ∀ {c : Dag} {P : Paths}, Good c P → ∀ (node : NodeId) (gates : List Kind),
+    ∃ P', Good (groupWalk r fuel c node gates).1 P' ∧ (groupWalk r fuel c node gates).1.regs = c.regs := by
+  induction fuel with
+  | zero => intro c P g node gates; exact ⟨P, g, rfl⟩
+  | succ fuel ih =>
+    intro c P g node gates
+    unfold groupWalk
+    by_cases hin : (dictGet c.nodeDict "Input").contains node = true
+    · rw [if_pos hin]; exact ⟨P, g, rfl⟩
+    · rw [if_neg hin]
+      cases he : edgeFromReg (c.inEdges node) r with
+      | none => exact ⟨P, g, rfl⟩
+      | some edge =>
+        simp only
+        obtain ⟨P1, g1, hr1⟩ := groupTake_good g node gates
+        cases ht : groupTake c node gates with
+        | mk c1 rest =>
+          obtain ⟨gates1, err⟩ := rest
+          rw [ht] at g1 hr1
+          simp only at g1 hr1
+          cases err with
+          | some e => exact ⟨P1, g1, hr1⟩
+          | none =>
+            simp only
+            by_cases hcond : (!((dictGet c1.nodeDict "one-qubit").contains edge.src) && !gates1.isEmpty) = true
+            · rw [if_pos hcond]
+              obtain ⟨P2, g2, hr2⟩ := groupFlush_good g1 r edge.src gates1
+              cases hf : groupFlush c1 r edge.src gates1 with
+              | mk c2 err2 =>
+                rw [hf] at g2 hr2
+                simp only at g2 hr2
+                cases err2 with
+                | some e => exact ⟨P2, g2, hr2.trans hr1⟩
+                | none =>
+                  obtain ⟨P3, g3, hr3⟩ := ih g2 edge.src []
+                  exact ⟨P3, g3, hr3.trans (hr2.trans hr1)⟩
+            · rw [if_neg hcond]
+              obtain ⟨P3, g3, hr3⟩ := ih g1 edge.src gates1
+              exact ⟨P3, g3, hr3.trans hr1⟩
+
+theorem groupLoop_good {c : Dag} {P : Paths} (g : Good c P) (os : List NodeId) :
+    ∃ P', Good (c.groupLoop os).1 P' ∧ (c.groupLoop os).1.regs = c.regs := by
+  induction os generalizing c P with
+  | nil => exact ⟨P, g, rfl⟩
+  | cons o rest ih =>
+    unfold groupLoop
+    cases ho : c.opOf? o with
+    | none => exact ⟨P, g, rfl⟩
+    | some op =>
+      simp only
+      generalize outReg o op = r
+      cases he : edgeFromReg (c.inEdges o) r with
+      | none => exact ⟨P, g, rfl⟩
+      | some e =>
+        simp only
+        obtain ⟨P1, g1, hr1⟩ := groupWalk_good r (c.nodes.length + 1) g e.src []
+        cases hw : groupWalk r (c.nodes.length + 1) c e.src [] with
+        | mk c1 err =>
+          rw [hw] at g1 hr1
+          simp only at g1 hr1
+          cases err with
+          | some e' => exact ⟨P1, g1, hr1⟩
+          | none =>
+            obtain ⟨P2, g2, hr2⟩ := ih g1
+            exact ⟨P2, g2, hr2.trans hr1⟩
+
+/-- **`group_one_qubit_gates` keeps DagInv** whatever it returns (it may stop early with the `AssertionError` of
+    `OneQubitGateWrapper.__init__`), and never changes the register counts -/
+theorem groupOneQubitGates_good {c : Dag} {P : Paths} (g : Good c P) :
+    ∃ P', Good c.groupOneQubitGates.1 P' ∧ c.groupOneQubitGates.1.regs = c.regs := by
+  unfold groupOneQubitGates
+  by_cases hh : dictHas c.nodeDict "Output" = true
+  · rw [if_pos hh]; exact groupLoop_good g _
+  · rw [if_neg hh]; exact ⟨P, g, rfl⟩
+
+
+/-! ### `unwrap_nodes` -/
+
+theorem oneQubit_wf {k : Kind} {r : Reg} (hk : k.isOneQubitBase = true) (hr : r.ty ≠ .c) : OpWF (Op.oneQubit k r) := by
+  have hparse : (Op.oneQubit k r).parseQRegTypes = regTypeWord r.ty := rfl
+  exact
+    { not_input := by intro e; simp [Op.oneQubit] at e; subst e; simp [Kind.isOneQubitBase] at hk
+      not_output := by intro e; simp [Op.oneQubit] at e; subst e; simp [Kind.isOneQubitBase] at hk
+      qregs_ne := by simp [Op.oneQubit]
+      qregs_nodup := by simp [Op.oneQubit]
+      cregs_nodup := by simp [Op.oneQubit]
+      qregs_quantum := by intro r' hr'; simp [Op.oneQubit] at hr'; subst hr'; exact hr
+      wrapper_shape := fun _ => ⟨⟨r, rfl⟩, rfl, by simp [Op.oneQubit]⟩
+      wrapper_key := by
+        intro hm
+        simp only [Op.indexKeys, hparse] at hm
+        simp only [Op.oneQubit, List.mem_append, List.mem_cons, List.mem_singleton, List.not_mem_nil, or_false] at hm
+        rcases hm with hm | hm | hm
+        · exact absurd hm (by decide)
+        · show k = .wrapper
+          cases k <;> first | rfl | exact absurd hm (by decide)
+        · cases hrt : r.ty <;> rw [hrt] at hm <;> exact absurd hm (by decide) }
+
+/-- the in-edges of a one-register operation node: the one edge of its wire -/
+theorem inEdges_single {c : Dag} {P : Paths} (g : Good c P) {i : Nat} {w : Op} (hw : (NodeId.op i, w) ∈ c.nodes) {r : Reg}
+    (hq : w.qregs = [r]) (hc : w.cregs = []) :
+    ∃ a, c.inEdges (.op i) = [⟨a, .op i, r⟩] ∧ (⟨a, .op i, r⟩ : Edge) ∈ c.edges := by
+  have hwf := g.inv.op_wf i w hw
+  have hrq : r.ty ≠ .c := hwf.qregs_quantum r (by rw [hq]; simp)
+  have hon : NodeId.op i ∈ P r := (g.mem.mem_q i w hw r hrq).mpr (by rw [hq]; simp)
+  obtain ⟨a, _, ha, _⟩ := g.inv.op_neighbours hon
+  have hedge : (⟨a, .op i, r⟩ : Edge) ∈ c.edges := (g.inv.edges_iff _).mpr ha
+  refine ⟨a, ?_, hedge⟩
+  unfold inEdges
+  apply filter_eq_singleton g.inv.edges_nodup hedge (by simp)
+  intro e he hd
+  have hd : e.dst = .op i := by simpa using hd
+  have hc' := (g.inv.edges_iff e).mp he
+  rw [hd] at hc'
+  have hk : e.key = r := by
+    by_cases hty : e.key.ty = .c
+    · exfalso
+      have : e.key = ⟨.c, e.key.idx⟩ := by cases hk : e.key with | mk t j => simp [hk] at hty; subst hty; rfl
+      have hm := hc'.mem.2
+      rw [this] at hm
+      have := g.mem.mem_c i w hw _ hm
+      rw [hc] at this; simp at this
+    · have := (g.mem.mem_q i w hw e.key hty).mp hc'.mem.2
+      rw [hq] at this; simpa using this
+  rw [hk] at hc'
+  have := consec_pred_unique (g.inv.nodup r) hc' ha
+  obtain ⟨s, d, ky⟩ := e
+  simp only at hd hk this
+  subst hd hk this; rfl
+
+theorem unwrapOne_good {c : Dag} {P : Paths} (g : Good c P) {i : Nat} {w : Op} (hw : (NodeId.op i, w) ∈ c.nodes) {r : Reg}
+    (hq : w.qregs = [r]) (hc : w.cregs = []) (os : List Op)
+    (hos : ∀ o ∈ os, OpWF o ∧ o.qregs = [r] ∧ o.cregs = []) :
+    (c.unwrapOne (.op i) os).2 = none ∧ ∃ P', Good (c.unwrapOne (.op i) os).1 P' ∧
+      (c.unwrapOne (.op i) os).1.regs = c.regs ∧ c.nodeId ≤ (c.unwrapOne (.op i) os).1.nodeId ∧
+      (NodeId.op i, w) ∈ (c.unwrapOne (.op i) os).1.nodes ∧
+      (∀ m o, (m, o) ∈ (c.unwrapOne (.op i) os).1.nodes → (m, o) ∈ c.nodes ∨ ∃ j, m = NodeId.op j ∧ c.nodeId < j) := by
+  induction os generalizing c P with
+  | nil => exact ⟨rfl, P, g, rfl, Nat.le_refl _, hw, fun m o h => Or.inl h⟩
+  | cons o rest ih =>
+    obtain ⟨hwf, hoq, hoc⟩ := hos o (by simp)
+    obtain ⟨a, hin, hedge⟩ := inEdges_single g hw hq hc
+    unfold unwrapOne
+    rw [hin]
+    obtain ⟨h1, P1, g1, hr1, hid1, hn1, _⟩ := insertAt_single_good g hwf hoq hoc hedge rfl
+    cases hres : c.insertAt o [⟨a, .op i, r⟩] with
+    | mk c1 err =>
+      rw [hres] at h1 g1 hr1 hid1 hn1
+      simp only at h1 g1 hr1 hid1 hn1
+      subst h1
+      simp only
+      have hw1 : (NodeId.op i, w) ∈ c1.nodes := by rw [hn1]; exact List.mem_append_left _ hw
+      obtain ⟨b1, P2, g2, b2, b3, b4, b5⟩ := ih g1 hw1 (fun o' ho' => hos o' (List.mem_cons_of_mem _ ho'))
+      refine ⟨b1, P2, g2, b2.trans hr1, by omega, b4, ?_⟩
+      intro m o' hm
+      rcases b5 m o' hm with hm | ⟨j, hj, hlt⟩
+      · rw [hn1] at hm
+        rcases List.mem_append.mp hm with hm | hm
+        · exact Or.inl hm
+        · simp at hm; exact Or.inr ⟨c.nodeId + 1, hm.1, by omega⟩
+      · exact Or.inr ⟨j, hj, by omega⟩
+
+theorem unwrap_ops_wf {w : Op} (hwf : OpWF w) (hk : w.kind = .wrapper) {r : Reg} (hq : w.qregs = [r]) :
+    ∀ o ∈ w.unwrap, OpWF o ∧ o.qregs = [r] ∧ o.cregs = [] := by
+  intro o ho
+  have hrq : r.ty ≠ .c := hwf.qregs_quantum r (by rw [hq]; simp)
+  unfold Op.unwrap at ho
+  rw [hk] at ho
+  simp only [hq, List.headD_cons] at ho
+  obtain ⟨k, hk', rfl⟩ := List.mem_map.mp ho
+  have := (hwf.wrapper_shape hk).2.2 k (List.mem_reverse.mp hk')
+  exact ⟨oneQubit_wf this hrq, rfl, rfl⟩
+
+theorem unwrapLoop_good {c : Dag} {P : Paths} (g : Good c P) (ns : List NodeId)
+    (hns : ∀ n ∈ ns, (∃ j, n = NodeId.op j ∧ j ≤ c.nodeId) ∧ ∀ op, (n, op) ∈ c.nodes → op.kind = .wrapper) :
+    ∃ P', Good (c.unwrapLoop ns).1 P' ∧ (c.unwrapLoop ns).1.regs = c.regs := by
+  induction ns generalizing c P with
+  | nil => exact ⟨P, g, rfl⟩
+  | cons n rest ih =>
+    obtain ⟨⟨i, rfl, hile⟩, hkind⟩ := hns n (by simp)
+    unfold unwrapLoop
+    cases ho : c.opOf? (.op i) with
+    | none => exact ⟨P, g, rfl⟩
+    | some w =>
+      simp only
+      have hw : (NodeId.op i, w) ∈ c.nodes := (opOf_eq_some g.inv.ids_nodup).mp ho
+      have hk := hkind w hw
+      have hwf := g.inv.op_wf i w hw
+      obtain ⟨⟨r, hq⟩, hc, _⟩ := hwf.wrapper_shape hk
+      obtain ⟨a1, P1, g1, a2, a3, a4, a5⟩ := unwrapOne_good g hw hq hc w.unwrap (unwrap_ops_wf hwf hk hq)
+      cases hres : c.unwrapOne (.op i) w.unwrap with
+      | mk c1 err =>
+        rw [hres] at a1 g1 a2 a3 a4 a5
+        simp only at a1 g1 a2 a3 a4 a5
+        subst a1
+        simp only
+        obtain ⟨b1, b2, b3, b4⟩ := removeOp_good g1 (mem_nodeIds.mpr ⟨w, a4⟩)
+        have hrm := removeOp_eq ((opOf_eq_some g1.inv.ids_nodup).mpr a4)
+        cases hres2 : c1.removeOp (.op i) with
+        | mk c2 err2 =>
+          rw [hres2] at b1 b2 b3 b4 hrm
+          simp only at b1 b2 b3 b4
+          subst b1
+          simp only
+          have hn2 : ∀ m o, (m, o) ∈ c2.nodes → (m, o) ∈ c1.nodes := by
+            intro m o hm
+            have : c2 = c1.removed (.op i) w := by injection hrm
+            rw [this] at hm
+            have F := removeFacts g1.inv (.op i)
+            simp only [removed, F.nodes] at hm
+            exact (List.mem_filter.mp hm).1
+          have hns' : ∀ n ∈ rest, (∃ j, n = NodeId.op j ∧ j ≤ c2.nodeId) ∧ ∀ op, (n, op) ∈ c2.nodes → op.kind = .wrapper := by
+            intro n hn
+            obtain ⟨⟨j, rfl, hj⟩, hkj⟩ := hns n (List.mem_cons_of_mem _ hn)
+            refine ⟨⟨j, rfl, by omega⟩, ?_⟩
+            intro op hop
+            rcases a5 _ _ (hn2 _ _ hop) with h | ⟨j', hj', hlt⟩
+            · exact hkj op h
+            · injection hj' with hj'; omega
+          obtain ⟨P3, g3, hr3⟩ := ih b2 hns'
+          exact ⟨P3, g3, hr3.trans (b3.trans a2)⟩
+
+/-- **`unwrap_nodes` keeps DagInv** and the register counts -/
+theorem unwrapNodes_good {c : Dag} {P : Paths} (g : Good c P) :
+    ∃ P', Good c.unwrapNodes.1 P' ∧ c.unwrapNodes.1.regs = c.regs := by
+  unfold unwrapNodes
+  by_cases hh : dictHas c.nodeDict "OneQubitGateWrapper" = true
+  · rw [if_pos hh]
+    apply unwrapLoop_good g
+    intro n hn
+    obtain ⟨i, rfl⟩ := g.inv.nodeDict_ops (by decide) (by decide) hn
+    obtain ⟨op, hop, hkey⟩ := g.inv.mem_nodeDict hn
+    refine ⟨⟨i, rfl, (g.inv.op_range i (mem_nodeIds.mpr ⟨op, hop⟩)).2⟩, ?_⟩
+    intro op' hop'
+    have h1 := (opOf_eq_some g.inv.ids_nodup).mpr hop
+    have h2 := (opOf_eq_some g.inv.ids_nodup).mpr hop'
+    rw [h1] at h2; injection h2 with h2; subst h2
+    exact (g.inv.op_wf i op hop).wrapper_key hkey
+  · rw [if_neg hh]; exact ⟨P, g, rfl⟩
 
 end Dag
 end Graphiq
